@@ -611,7 +611,7 @@ def t3_pipeline(tier, seed):
                 x = {"decode": False, "rest": -1, "same": False}    # the binary died before reaching this check
             if not compiled:
                 x = {"decode": False, "rest": -1, "same": False}
-            checks.append({"id": ch["id"], "k": ch["k"], "bytes": ch["bytes"], "decode": x["decode"], "rest": x["rest"], "same": x["same"]})
+            checks.append({"id": ch["id"], "k": ch["k"], "bytes": ch["bytes"], "variant": ch.get("variant", -1), "decode": x["decode"], "rest": x["rest"], "same": x["same"]})
         obs.append({"case": rcd["case"], "input": {"reg": rcd["runs"][0]["reg"], "fam": rcd["fam"]}, "emitted": mf.get("emitted", False), "compiled": compiled,
                     "errors": failed_cases.get(rcd["case"], []), "checks": checks})
     write_ndjson(os.path.join(wd, "obs.ndjson"), obs)
@@ -669,7 +669,7 @@ def check_genprop(prop, prefixes, nontrivial, rule, tier, seed, domain=lambda v:
     res.nontrivial = sum(1 for v in verdicts if nontrivial(v))
     res.drift = sum(1 for v in verdicts if v["drift"])
     res.extra.update({"families": g["fam_counts"], "design_level": g["design"], "mc_actions": g["mc_actions"], "e0_programs": g["e0"]})
-    if prop in ("C01", "C02"):
+    if prop in ("C01", "C02", "C18"):
         t3 = t3_pipeline(tier, seed)
         res.add_mc(t3["tv"])
         t3cases = None
